@@ -62,6 +62,12 @@ theorem c08_seen_gets_no_request (t2 : Tree) (sr : Seen × List String) (d : Nat
     ∀ x ∈ (finalStep t2 sr d).2.2.1, x ∉ sr.2 :=
   finalStep_skips_seen t2 sr d
 
+/-- … and so, in `preprocess` itself (local store, seencheck enabled): whatever the seencheck of this pass marks seen is not
+among the nodes a request is built for. -/
+theorem c08_preprocess_skips_seen (cfg : Cfg) (seen : Seen) (t2 : Tree) (d : Nat) (hq : cfg.useHQ = false) (hs : cfg.useSeencheck = true) :
+    ∀ x ∈ (preTail S cfg seen t2 d).2.2.1, x ∉ (seencheck t2 (t2.atLevel d) seen).2 :=
+  preTail_seen_not_requested S cfg seen t2 d hq hs
+
 /-- **crawl HQ**: the value sent for a node is the value compared with HQ's answer (both the canonical string) -/
 theorem c08_hq_fields_agree (i : Info) : hqSendKey S i = hqCmpKey S i := by
   have h1 : S.seenHQSends = "canonical" := by decide
